@@ -27,6 +27,14 @@ CHECKS = {
          "Seeded histories of updates, deletes, lifecycle calls, Reset, Remove, Add over 2-4 targets with identical path sets run on the real cache with a real subscribe.Server attached to its feed. After every operation addressed to one target every other target's existence, leaves (wire bytes of stored notifications) and Metadata() values are compared with their state before it; Reset, Remove and re-Add post-conditions, the feed entries of each call, and the responses and final status of single-target and '*' STREAM subscribers are judged after every step. Held = held on those histories.",
          "Single writer goroutine with a virtual clock; subscribers attach between operations and are synced before the history continues; end of stream decided by events only (probe entry through Server.Update; watchdog yields inconclusive); latestTimestamp, size and latency not asserted after Reset; trusted: model.Shadow/MatchQ replay and vlib.Stream.",
          "3/C14"),
+ "C03": ("replay trace monitor (shadow driven by the change feed) plus differential twin cache over seeded histories with aliased prefix objects",
+         "Every call of each explored history runs on the real cache; the notifications handed to the SetClient callback are replayed onto a shadow that must equal Query after every call, with suppressed-counter accounting, justified withholding (rejected, or unchanged value under event-driven emulation), atomic wholeness, caller-message and shared-prefix backing-array immutability, and stability of retained delete leaves; a twin cache receives every multi notification split into singles (multi = sequence). Histories mix single/multi/atomic/wildcard-delete notifications, Reset/Remove/Add over 2-3 targets, emulation on/off, built from a pool of shared prefix objects with spare capacity; separate modes add mixed path encodings, path-level origins (known finding, same root cause as D19) and atomic<->scalar kind flips. Held = held on those seeded histories.",
+         "Consumer index rule = subscribe.Update's; 'unchanged' judged with proto.Equal on the TypedValue; single goroutine, virtual clock, no future threshold; Add only for absent targets; suppressed count read from the target's own counter.",
+         "3/C03"),
+ "C20": ("online stream monitor, same-seed replay differential and endpoint-versus-queue differential over generated fake-target configurations",
+         "On seeded random fake-target configurations every value emitted by the real UpdateQueue is judged online for timestamp order, exact repeat count, range/list/constant membership, timestamp-delta bounds and sync placement, to exhaustion or 1000 steps; sequences from a deep clone and from the reused config object with the same non-zero seed are proto.Equal-identical; documented-invalid settings produce an error, never a generated value; for a subset the responses of the real fake Client (in memory) and Agent (loopback gRPC) equal the queue's own sequence with exactly one sync after every value's first emission; FixedQueue delivers exactly its list. Held = held on those configurations.",
+         "A value is identified by its unique path; magnitudes below 2^62, finite doubles; unbounded repeat decided as bounded progress within the horizon; cumulative value-delta semantics counted as a diagnostic only; agent listen/dial failures are inconclusive.",
+         "3/C20"),
  "C04": ("trace monitor over in-memory Subscribe streams with schedule perturbation at verif points; replay-vs-cache oracle at logical quiescence",
          "Real cache + subscribe.Server driven by one writer goroutine per target (updates with unique values, leaf/subtree deletes, re-adds, Resets) while 2-6 STREAM subscriptions start at seeded moments under seeded delays / long holds at 7 schedule points and GOMAXPROCS 2/4/16. Every subscriber's exact response sequence is judged: exactly one sync (first for updates_only), every leaf present before the call and never deleted precedes the sync, values received were written and never go backwards, and replaying the responses equals the cache's matching content once a sentinel protocol establishes logical quiescence. Held = held on the interleavings produced; the evidence counts writes that landed in each registration/walk window.",
          "One writer per target; subscription path shapes chosen so that streaming compatibility and query selection coincide; schedules perturbed, not enumerated; a sentinel undelivered for 40 s on an idle system counts as a violation.",
